@@ -766,7 +766,7 @@ func streamSides(n *NodeSpec) int {
 		return 1
 	case "tools": // the StreamableLambda and the streamed output of every tool call
 		return 1 + n.Tools
-	case "xform", "conv", "ident":
+	case "xform", "conv", "ident", "anyx":
 		return 2
 	}
 	return 0
